@@ -562,3 +562,57 @@ impl<I: Iterator<Item = Result<u32, String>>> Polling<I> {
         r
     }
 }
+
+// ---- C08 R8.2 (map_unchecked), R8.9 / R8.10 (a value is used only after its check succeeded)
+pub struct Wrapped<T>(pub T);
+impl<T> Wrapped<T> {
+    pub fn map_unchecked<U, F: FnOnce(T) -> U>(self, f: F) -> Wrapped<U> {
+        Wrapped(f(self.0))
+    }
+}
+/// positive: the closure ignores the wrapped (validated) value and wraps another string
+pub fn pos_map_replaces_wrapped(w: Wrapped<&'static str>, other: &str) -> Wrapped<String> {
+    w.map_unchecked(|_| other.to_string())
+}
+/// negative: the closure converts the wrapped value
+pub fn neg_map_converts_wrapped(w: Wrapped<&'static str>) -> Wrapped<String> {
+    w.map_unchecked(|s| s.to_string())
+}
+/// negative: a conversion item
+pub fn neg_map_converts_with_item(w: Wrapped<&'static str>) -> Wrapped<String> {
+    w.map_unchecked(String::from)
+}
+#[inline(never)]
+pub fn checked_token(s: &str) -> Result<u8, ()> {
+    s.bytes().next().ok_or(())
+}
+#[inline(never)]
+pub fn consume_token(s: &str) -> usize {
+    s.len()
+}
+/// positive: the failure of the check does not keep the value from being used
+pub fn pos_used_after_failed_check(s: &str) -> usize {
+    if checked_token(s).is_err() {
+        std::hint::black_box(0);
+    }
+    consume_token(s)
+}
+/// negative: early return on failure (`is_err` form)
+pub fn neg_refused_after_failed_check(s: &str) -> Option<usize> {
+    if checked_token(s).is_err() {
+        return None;
+    }
+    Some(consume_token(s))
+}
+/// negative: `match` form
+pub fn neg_refused_with_match(s: &str) -> Option<usize> {
+    match checked_token(s) {
+        Ok(_) => Some(consume_token(s)),
+        Err(()) => None,
+    }
+}
+/// negative: `?` form
+pub fn neg_refused_with_question_mark(s: &str) -> Result<usize, ()> {
+    checked_token(s)?;
+    Ok(consume_token(s))
+}
